@@ -33,41 +33,48 @@ EXTENDS Integers, Sequences, FiniteSets, TLC, Json
 
 CONSTANTS NC,          \* callers 1..NC
           OpsPer,      \* CAS calls per caller
-          Backend,     \* "consul" | "etcd" | "memberlist"
+          Backends,    \* subset of {"consul", "etcd", "memberlist"}: the stores of this run
           Limit,       \* attempts per call (10 everywhere; consul: Config.MaxCasRetries)
           MaxErr,      \* bound of the model: error-with-retry outcomes per call
-          Secondary,   \* "none" | "consul" | "memberlist": MultiClient mirroring into that store
+          Secondaries, \* subset of {"none", "consul", "memberlist"}: "none" = no MultiClient, otherwise
+                       \* a MultiClient mirrors every successful CAS into a second store of that kind
           WithDelete,  \* TRUE: a Delete action exists (outside C07's quantifier, see MC_aba)
           Emit         \* TRUE: print one behaviour per transition (gen/replay binding)
 
-ASSUME Backend \in {"consul", "etcd", "memberlist"} /\ Secondary \in {"none", "consul", "memberlist"}
+ASSUME Backends \subseteq {"consul", "etcd", "memberlist"} /\ Secondaries \subseteq {"none", "consul", "memberlist"}
 
 Clients == 1..NC
 Nil     == {}
 
-VARIABLES cell,     \* [val, ver]
+VARIABLES Backend,  \* the store under test, chosen in Init and never changed (one TLC run covers all)
+          Secondary,
+          cell,     \* [val, ver]
           ctr,      \* Consul: the store-wide index the next ModifyIndex is taken from
           cl,       \* cl[c] = [pc, op, att, errs, sval, sver]
           applied,  \* history: the successful writes in the order they hit the store
-          res,      \* history: res[c][k] = "" | "ok" | "declined" | "fail"
+          res,      \* history: res[c][k] = "" | "ok" | "noop" (declined or failed)
           mirror,   \* value in the secondary store of a mirroring MultiClient
           hist      \* behaviour so far (not in the VIEW)
 
-vars == <<cell, ctr, cl, applied, res, mirror, hist>>
-view == <<cell, ctr, cl, applied, res, mirror>>
+vars == <<Backend, Secondary, cell, ctr, cl, applied, res, mirror, hist>>
+view == <<Backend, Secondary, cell, ctr, cl, applied, res, mirror>>
 
 Tags(v)        == {<<t[1], t[2]>> : t \in v}
 AppendTag(v, c, k) == v \cup {<<c, k, Cardinality(v) + 1>>}
 
 IdleRec(k) == [pc |-> "idle", op |-> k, att |-> 0, errs |-> 0, sval |-> Nil, sver |-> 0]
 
-Init == /\ cell = [val |-> Nil, ver |-> 0]
+(* the MultiClient can be built (kv.NewClient, store "multi") from the in-memory Consul store *)
+(* and a memberlist KV, in either order                                                        *)
+Init == /\ Backend \in Backends
+        /\ Secondary \in {s \in Secondaries : s = "none" \/ (s # Backend /\ Backend # "etcd")}
+        /\ cell = [val |-> Nil, ver |-> 0]
         /\ ctr = 1
         /\ cl = [c \in Clients |-> IdleRec(0)]
         /\ applied = <<>>
         /\ res = [c \in Clients |-> [k \in 1..OpsPer |-> ""]]
         /\ mirror = Nil
-        /\ hist = <<>>
+        /\ hist = <<[a |-> "setup", be |-> Backend, sec |-> Secondary, limit |-> Limit]>>
 
 (* What a read leaves in the caller's local index/revision/version variable.  Consul and etcd   *)
 (* clients overwrite it only when the key exists (it keeps its previous value otherwise, 0 at   *)
@@ -90,26 +97,31 @@ Mirrored(out) == CASE Secondary = "none"       -> mirror
                    [] Secondary = "consul"     -> out                        \* f of the mirror write ignores its input
                    [] Secondary = "memberlist" -> mirror \cup out
 
-Step(a, c, rf, e, in) == hist' = Append(hist, [a |-> a, c |-> c, rf |-> rf, e |-> e, in |-> in,
-                                               val |-> cell'.val, mir |-> mirror'])
+(* what the step looks like from outside: e = what happened to caller c ("fin": its f was       *)
+(* (re-)entered and handed `in`; "ok" / "fail": its call returned), val = what Get returns       *)
+(* afterwards, mir = the secondary store.  The whole path is kept only when behaviours are       *)
+(* emitted; otherwise hist is just the last step (KVCasTrace binds logged events to it).         *)
+Step(a, c, rf, e, in) ==
+    LET r == [a |-> a, c |-> c, rf |-> rf, e |-> e, in |-> in, val |-> cell'.val, mir |-> mirror']
+    IN hist' = IF Emit THEN Append(hist, r) ELSE <<r>>
 
 Begin(c) ==
     /\ cl[c].pc = "idle" /\ cl[c].op < OpsPer
     /\ cl' = [cl EXCEPT ![c] = [pc |-> "inf", op |-> @.op + 1, att |-> 1, errs |-> 0,
                                 sval |-> cell.val, sver |-> ReadVer(0)]]
-    /\ UNCHANGED <<cell, ctr, applied, res, mirror>>
+    /\ UNCHANGED <<Backend, Secondary, cell, ctr, applied, res, mirror>>
     /\ Step("begin", c, FALSE, "fin", cell.val)
 
 (* the attempt did not write: next attempt (re-read, f entered again) or the call fails *)
 NoWrite(a, c, rf, retry, errs) ==
-    /\ UNCHANGED <<cell, ctr, applied, mirror>>
+    /\ UNCHANGED <<Backend, Secondary, cell, ctr, applied, mirror>>
     /\ IF retry /\ cl[c].att < Limit
        THEN /\ cl' = [cl EXCEPT ![c] = [@ EXCEPT !.att = @ + 1, !.errs = errs, !.sval = cell.val,
                                                  !.sver = ReadVer(cl[c].sver)]]
             /\ res' = res
             /\ Step(a, c, rf, "fin", cell.val)
        ELSE /\ cl' = [cl EXCEPT ![c] = IdleRec(@.op)]
-            /\ res' = [res EXCEPT ![c][cl[c].op] = "fail"]
+            /\ res' = [res EXCEPT ![c][cl[c].op] = "noop"]
             /\ Step(a, c, rf, "fail", Nil)
 
 Put(c, rf) ==
@@ -124,6 +136,7 @@ Put(c, rf) ==
                /\ res' = [res EXCEPT ![c][k] = "ok"]
                /\ mirror' = Mirrored(out)
                /\ cl' = [cl EXCEPT ![c] = IdleRec(k)]
+               /\ UNCHANGED <<Backend, Secondary>>
                /\ Step("put", c, rf, "ok", Nil)
           ELSE \* consul, etcd: always another attempt; memberlist: only if f said retry
                NoWrite("put", c, rf, Backend # "memberlist" \/ rf, cl[c].errs)
@@ -131,8 +144,8 @@ Put(c, rf) ==
 Decline(c) ==
     /\ cl[c].pc = "inf"
     /\ cl' = [cl EXCEPT ![c] = IdleRec(@.op)]
-    /\ res' = [res EXCEPT ![c][cl[c].op] = "declined"]
-    /\ UNCHANGED <<cell, ctr, applied, mirror>>
+    /\ res' = [res EXCEPT ![c][cl[c].op] = "noop"]
+    /\ UNCHANGED <<Backend, Secondary, cell, ctr, applied, mirror>>
     /\ Step("decline", c, FALSE, "ok", Nil)
 
 Err(c, rf) ==
@@ -146,8 +159,8 @@ Err(c, rf) ==
 Delete ==
     /\ WithDelete /\ cell.ver # 0 /\ Backend # "memberlist"
     /\ cell' = [val |-> Nil, ver |-> 0]
-    /\ UNCHANGED <<ctr, cl, applied, res, mirror>>
-    /\ hist' = Append(hist, [a |-> "delete", c |-> 0, rf |-> FALSE, e |-> "", in |-> Nil, val |-> Nil, mir |-> mirror])
+    /\ UNCHANGED <<Backend, Secondary, ctr, cl, applied, res, mirror>>
+    /\ Step("delete", 0, FALSE, "", Nil)
 
 Next == \/ \E c \in Clients : \/ Begin(c)
                               \/ \E rf \in BOOLEAN : Put(c, rf) \/ Err(c, rf)
@@ -197,9 +210,10 @@ AtMostOncePerCall ==
 (* a call that reports failure, or whose function declines, leaves the stored value unchanged; *)
 (* the cell changes only in the step in which a call reports success                            *)
 FailureIsNoop ==
-    [][ /\ (\E c \in Clients, k \in 1..OpsPer : res'[c][k] # res[c][k] /\ res'[c][k] \in {"fail", "declined"}) => cell' = cell
-        /\ cell' # cell => /\ Len(applied') = Len(applied) + 1
-                           /\ LET a == applied'[Len(applied')] IN res[a.c][a.k] = "" /\ res'[a.c][a.k] = "ok"
+    [][ /\ (\E c \in Clients, k \in 1..OpsPer : res'[c][k] # res[c][k] /\ res'[c][k] = "noop") => cell' = cell
+        /\ cell' # cell => \/ /\ Len(applied') = Len(applied) + 1
+                              /\ LET a == applied'[Len(applied')] IN res[a.c][a.k] = "" /\ res'[a.c][a.k] = "ok"
+                           \/ WithDelete /\ cell'.ver = 0 /\ res' = res
       ]_view
 
 (* gen/replay: every transition of the (VIEW-)state graph yields the path to its source + itself *)
